@@ -194,7 +194,7 @@ fn hostile_value(t: &mut Tape) -> FileVal {
         11 => FileVal::Seq(vec![FileVal::Seq(vec![s("a"), s("_")]), FileVal::Seq(vec![s("b"), s("_")])]),
         12 => FileVal::Seq(vec![FileVal::Seq(vec![s("a")]), FileVal::Seq(vec![s("b"), s("1")])]),
         13 => FileVal::Seq(vec![FileVal::Seq(vec![]), FileVal::Seq(vec![s("b")])]),
-        14 => FileVal::Map(vec![]),
+        14 => FileVal::Seq(vec![FileVal::Seq(vec![FileVal::Null, s("1")]), FileVal::Map(vec![("value".into(), FileVal::Null)]), FileVal::Seq(vec![FileVal::Null])]),
         _ => [FileVal::Null, FileVal::F(1e308), FileVal::I(i64::MIN), FileVal::U(u64::MAX), FileVal::Bool(false)][t.pick(5)].clone(),
     }
 }
